@@ -83,6 +83,14 @@ fn prf_input(run: &mut Run, name: &str, hashed: bool, badlen: bool) -> Bytes {
     };
     let mut b = vec![0u8; len];
     run.rng.fill_bytes(&mut b);
+    // pre-hashed inputs reach the authenticator as they are: every fourth run a caller supplies degenerate ones
+    if hashed && len == 32 {
+        match (run.run_idx % 4, name.ends_with("e1"), name.ends_with("e2")) {
+            (1, _, true) | (2, true, _) => b = vec![0u8; 32],
+            (2, _, true) => b = vec![0xffu8; 32],
+            _ => {}
+        }
+    }
     // two inputs of one request must differ, or their outputs could not be told apart (only the empty input can collide)
     while !hashed && run.salts.iter().any(|(_, s)| *s == webauthn_salt(&b)) {
         b = vec![0u8; 1 + run.rng.gen_range(0..40)];
@@ -200,7 +208,10 @@ struct Prepared {
 fn prepare(run: &mut Run, req: &Value) -> Prepared {
     let origin = Url::parse(origin_url(req["origin"].as_str().unwrap())).unwrap();
     let chal = challenge(run, req["chal"].as_str().unwrap());
-    let mut custom_hash = vec![0u8; 32];
+    // "hash" = a caller-supplied 32-byte hash; "hash<N>" = one of N bytes (the caller need not use SHA-256)
+    let mode = req["cdmode"].as_str().unwrap();
+    let n: usize = mode.strip_prefix("hash").and_then(|t| t.parse().ok()).unwrap_or(32);
+    let mut custom_hash = vec![0u8; n];
     run.rng.fill_bytes(&mut custom_hash);
     Prepared { origin, chal, mode: req["cdmode"].as_str().unwrap().to_string(), custom_hash }
 }
@@ -265,7 +276,7 @@ fn register(run: &mut Run, req: &Value) -> Value {
     let extra = extra_value();
     let out = util::catch(|| match p.mode.as_str() {
         "extra" => drive(client.register(&p.origin, options, DefaultClientDataWithExtra(extra.clone())), &sh),
-        "hash" => drive(client.register(&p.origin, options, DefaultClientDataWithCustomHash(p.custom_hash.clone())), &sh),
+        m if m.starts_with("hash") => drive(client.register(&p.origin, options, DefaultClientDataWithCustomHash(p.custom_hash.clone())), &sh),
         _ => drive(client.register(&p.origin, options, DefaultClientData), &sh),
     });
     run.client = Some(client);
@@ -410,7 +421,7 @@ fn authenticate(run: &mut Run, req: &Value) -> Value {
     let extra = extra_value();
     let out = util::catch(|| match p.mode.as_str() {
         "extra" => drive(client.authenticate(&p.origin, options, DefaultClientDataWithExtra(extra.clone())), &sh),
-        "hash" => drive(client.authenticate(&p.origin, options, DefaultClientDataWithCustomHash(p.custom_hash.clone())), &sh),
+        m if m.starts_with("hash") => drive(client.authenticate(&p.origin, options, DefaultClientDataWithCustomHash(p.custom_hash.clone())), &sh),
         _ => drive(client.authenticate(&p.origin, options, DefaultClientData), &sh),
     });
     run.client = Some(client);
@@ -451,7 +462,7 @@ fn judge_authenticate(run: &mut Run, p: &Prepared, c: &AuthenticatedPublicKeyCre
         d["ed"] = json!(ad.ext.is_some());
         // the signature covers authenticatorData || SHA-256(clientDataJSON), or the caller-supplied hash
         let mut msg = bytes.to_vec();
-        if p.mode == "hash" {
+        if p.mode.starts_with("hash") {
             msg.extend_from_slice(&p.custom_hash);
         } else {
             msg.extend_from_slice(&rp::sha256(&c.response.client_data_json));
